@@ -122,6 +122,12 @@ theorem runH_append {CB : Type} (eff : CB → Eff) (h : Int) (a b : List (CallIn
     | none => simp
     | some h1 => simp [ih]
 
+/-- appending one plain (count-free, non-throwing) callback to a safe trace -/
+theorem runH_snoc {CB : Type} (eff : CB → Eff) (h h1 : Int) (tr : List (CallInst CB)) (cb : CB) (need : Nat) (d : Int)
+    (hr : runH eff h tr = some h1) (he : eff cb = ⟨need, 0, d, 0, d, 0, false, false, false⟩) (hn : (need : Int) ≤ h1) :
+    runH eff h (tr ++ [⟨cb, 0, false, 0⟩]) = some (h1 + d) := by
+  simp [runH_append, hr, runH, stepH, he, hn]
+
 section sound
 variable {CB NT : Type}
 variable (sig : NT → Sig) (eff : CB → Eff)
